@@ -191,11 +191,13 @@ CHECKS = {
    text="The parser is not modelled by hand: on every run the 11 LALR tables, the token numbers, the tokenizer's keyword table, all 107 semantic actions (sql/parser.go) and the grammar with its "
         "%type declarations (sql/parser.go.y, cross-checked against the tables' production lengths) are TRANSLATED into Coq, and goyacc's driver loop is transcribed once over them with a "
         "freshness bit per value-stack field. Coq then proves on that text: every state x lookahead stays in range in yynewstate / yydefault / the exception table (C16_decisions_in_range) "
-        "and every goto yields a state (C16_gotos_in_range) - no index-out-of-range panic in the driver; and every semantic value an action reads is assigned by every production of the "
+        "and every goto yields a state (C16_gotos_in_range); lifted by a loop invariant to EVERY token list and any step budget: no out-of-range access to any of the ten tables, no shift "
+        "without a lookahead, every pushed state is a state (C16_no_table_panic); and every semantic value an action reads is assigned by every production of the "
         "symbol it is read from (C16_local) - the obligation the empty productions violated before the repair. Every run: tokenize / Parse never panic on generated and malformed text; the "
         "translated parser run on the implementation's token lists gives the same statement (canonical dump) and never reads a stale slot; every string parsed three times in different "
         "orders gives one result; each column of SQLite-valid statements is reported identically in context, alone and rotated.",
-   note="PARTIAL: termination of the driver is a step budget in the model (never exhausted), not a theorem; the tokenizer is not modelled (its token lists are the implementation's; its totality "
+   note="PARTIAL: termination of the driver is a step budget in the model (never exhausted), not a theorem; that the value stack is deep enough for every reduction and that actions apply "
+        "functions to values of the right shape (the model's BadTable \"eval\") is goyacc's construction and Go's typing, assumed; the tokenizer is not modelled (its token lists are the implementation's; its totality "
         "is checked by the malformed stream); that the LR stack slot k holds grammar symbol k is goyacc's construction, assumed. The translator (tools/regen.py) is in the trusted base; a "
         "source it cannot read is a hard error.",
    technique="translation of the parser's tables and actions into Coq with finite proofs by vm_compute, re-checked every run + differential of the translated parser vs sql.Parse",
